@@ -385,6 +385,43 @@ Section Accept.
     | Ok (r, _, _) => Ok r
     end.
 
+  (* Accept.index(key: str): the position of the first matching item, ValueError when there is none *)
+  Fixpoint index_from (acc : list item) (k : str) (i : nat) : result nat :=
+    match acc with
+    | [] => Err ValueError
+    | (ci, _) :: t =>
+        match value_matches k ci with
+        | Err e => Err e
+        | Ok true => Ok i
+        | Ok false => index_from t k (S i)
+        end
+    end.
+  Definition index (acc : list item) (k : str) : result nat := index_from acc k 0.
+  (* Accept.find: `try: return self.index(key) except ValueError: return -1`  (the ValueError that
+     MIMEAccept._value_matches raises for an invalid offer is swallowed as well) *)
+  Definition find (acc : list item) (k : str) : result Z :=
+    match index acc k with
+    | Ok i => Ok (Z.of_nat i)
+    | Err ValueError => Ok (-1)%Z
+    | Err e => Err e
+    end.
+  (* Accept.__getitem__: a str key is quality(key); an int key is list indexing (negative from the end) *)
+  Definition getitem_str (acc : list item) (k : str) : result Qd := quality acc k.
+  Definition getitem_int (acc : list item) (i : Z) : result item :=
+    let n := Z.of_nat (length acc) in
+    let j := if (i <? 0)%Z then (i + n)%Z else i in
+    if (j <? 0)%Z || (n <=? j)%Z then Err IndexError
+    else match nth_error acc (Z.to_nat j) with Some it => Ok it | None => Err IndexError end.
+
+  (* best_match(matches, default): `result = default` is what is returned when nothing is taken *)
+  Definition best_match_default (acc : list item) (offers : list str) (default : option str)
+    : result (option str) :=
+    match best_match acc offers with
+    | Err e => Err e
+    | Ok (Some o) => Ok (Some o)
+    | Ok None => Ok default
+    end.
+
   (* Accept.best *)
   Definition best (acc : list item) : option str :=
     match acc with [] => None | (v, _) :: _ => Some v end.
@@ -486,3 +523,25 @@ Definition to_header (acc : list item) : str := join [COMMA] (map to_header_item
 Definition render_item (it : item) : str :=
   if qeqb (snd it) (q_of_Z 1%Z) then fst it else fst it ++ q_param ++ render_q (snd it).
 Definition render_header (items : list item) : str := join [COMMA] (map render_item items).
+
+(* LanguageAccept.best_match(matches, default): every stage calls best_match without a default and
+   tests `is not None`; `return default` ends the method *)
+Definition family_best_match_default (tbl : codec_table) (f : family) (acc : list item) (offers : list str)
+  (default : option str) : result (option str) :=
+  match family_best_match tbl f acc offers with
+  | Err e => Err e
+  | Ok (Some o) => Ok (Some o)
+  | Ok None => Ok default
+  end.
+
+(* MIMEAccept.accept_html / accept_xhtml / accept_json *)
+Definition s_text_html : str := [116; 101; 120; 116; 47; 104; 116; 109; 108].
+Definition s_app_xhtml : str :=
+  [97; 112; 112; 108; 105; 99; 97; 116; 105; 111; 110; 47; 120; 104; 116; 109; 108; 43; 120; 109; 108].
+Definition s_app_xml : str := [97; 112; 112; 108; 105; 99; 97; 116; 105; 111; 110; 47; 120; 109; 108].
+Definition s_app_json : str := [97; 112; 112; 108; 105; 99; 97; 116; 105; 111; 110; 47; 106; 115; 111; 110].
+Definition mime_in (acc : list item) (v : str) : bool :=
+  match contains mime_matches acc v with Ok b => b | Err _ => false end.   (* the four constants are valid offers *)
+Definition accept_xhtml (acc : list item) : bool := accept_xhtml_gen (mime_in acc).
+Definition accept_html (acc : list item) : bool := accept_html_gen (mime_in acc) (accept_xhtml acc).
+Definition accept_json (acc : list item) : bool := accept_json_gen (mime_in acc).
